@@ -218,6 +218,13 @@ func (b *bmpClient) loop() {
 				case ev := <-w.Event():
 					switch msg := ev.(type) {
 					case *watchEventUpdate:
+						if !msg.PeerAddress.IsValid() {
+							// The initial post-policy dump groups the table by source and
+							// so includes locally originated routes. They have no peer:
+							// no Peer Up was sent for them and later changes of such
+							// routes are not reported under a peer either.
+							continue
+						}
 						info := &table.PeerInfo{
 							Address: msg.PeerAddress,
 							AS:      msg.PeerAS,
